@@ -104,6 +104,13 @@ def run(tier, mode):
             ws = [(x, 'NE/4') for x in want]
             if gs != ws:
                 fail('plssdesc_sections', {'text': desc, 'items': items}, gs, ws)
+            elif descending(items):
+                # a descending section range raises the non-sequential warning -- also when the section is only accepted on the colon-cautious second pass
+                for dtext, cfg in ((desc, ''), (f'T154N-R97W {txt} NE/4', 'sec_colon_cautious')):
+                    d2 = H.call(pytrs.PLSSDesc, dtext, config=cfg)
+                    n_or += 1
+                    if isinstance(d2, H.Exn) or [t.sec for t in d2.tracts] != want or not any(f.startswith('nonsequential_sections') for f in d2.w_flags):
+                        fail('plssdesc_nonsequential_flag', {'text': dtext, 'items': items, 'config': cfg}, d2 if isinstance(d2, H.Exn) else [[t.sec for t in d2.tracts], d2.w_flags], [want, 'nonsequential_sections<...>'])
         # ---- lots
         items = gen_items(r, 40 if i % 3 else 999)
         txt = render(r, items, LOT_SING, LOT_PLUR)
